@@ -277,7 +277,11 @@ def _compare(vio, label, cls, stream, chunks, expected):
                 stream, whole, expected)))
 
 
+FUZZ_MODULES = ["mpf.core.bcp.bcp_socket_client", "mpf.core.bcp.bcp_interface", "mpf.core.utility_functions"]
+
 SUBCHECKS = [
-    SubCheck("roundtrip", lambda: case_rt, check_roundtrip, quick=12000, thorough=600000, procs_quick=8),
-    SubCheck("stream", lambda: case_stream, check_stream, quick=3000, thorough=120000, procs_quick=4),
+    SubCheck("roundtrip", lambda: case_rt, check_roundtrip, quick=12000, thorough=600000, procs_quick=8,
+             fuzz={"quick": 6000, "thorough": 400000, "modules": FUZZ_MODULES}),
+    SubCheck("stream", lambda: case_stream, check_stream, quick=3000, thorough=120000, procs_quick=4,
+             fuzz={"quick": 3000, "thorough": 200000, "modules": FUZZ_MODULES}),
 ]
